@@ -421,7 +421,7 @@ def is_instance(value: Any, type_: Any) -> bool:
     """
 
     # We do not want Python implicit isinstance(True, int) == True
-    if type_ is int and value is True or value is False:
+    if type_ is int and isinstance(value, bool):
         return False
 
     try:
